@@ -193,6 +193,7 @@ class PVal:
     """sly's production slice `p`."""
     syms: tuple
     values: list
+    aliases: dict = field(default_factory=dict)
 
 
 @dataclass(frozen=True)
@@ -568,6 +569,64 @@ class Interp:
             self.exec_block(st.orelse, env)
         self.exec_block(st.finalbody, env)
 
+    def st_With(self, st, env):
+        """`with <generator-based context manager>:` = its statements before `yield`, the body, then the statements
+        after `yield` (also when the yield sits in try/finally)."""
+        if len(st.items) != 1:
+            raise Unsupported(f"with statement with several items at {env.mod.site(st)}")
+        item = st.items[0]
+        call = item.context_expr
+        if not isinstance(call, ast.Call):
+            raise Unsupported(f"with on a non-call at {env.mod.site(st)}")
+        f = self.eval(call.func, env)
+        if not isinstance(f, FuncVal):
+            d = dotted(call.func) or ""
+            if d.endswith("Lock") or "lock" in d.lower() or d in ("contextlib.nullcontext", "nullcontext", "contextlib.suppress"):
+                return self.exec_block(st.body, env)
+            raise Unsupported(f"context manager {norm(call.func)} at {env.mod.site(st)}")
+        decos = [dotted(d_) for d_ in f.node.decorator_list]
+        if not any(d_ in ("contextmanager", "contextlib.contextmanager") for d_ in decos):
+            raise Unsupported(f"with on {f.node.name}, which is not a @contextmanager ({env.mod.site(st)})")
+        args = [self.eval(a_, env) for a_ in call.args]
+        kwargs = {k_.arg: self.eval(k_.value, env) for k_ in call.keywords}
+        fenv_local = {}
+        params = [a_.arg for a_ in f.node.args.args]
+        allargs = ([f.bound] if f.bound is not None else []) + args
+        for pn, v_ in zip(params, allargs):
+            fenv_local[pn] = v_
+        fenv_local.update(kwargs)
+        nd = len(f.node.args.defaults)
+        for i_, d_ in enumerate(f.node.args.defaults):
+            pn = params[len(params) - nd + i_]
+            if pn not in fenv_local:
+                fenv_local[pn] = self.eval(d_, Env(f.mod, {}))
+        for ko, d_ in zip(f.node.args.kwonlyargs, f.node.args.kw_defaults):
+            if ko.arg not in fenv_local and d_ is not None:
+                fenv_local[ko.arg] = self.eval(d_, Env(f.mod, {}))
+        fenv = Env(f.mod, fenv_local)
+
+        def is_yield(s_):
+            return isinstance(s_, ast.Expr) and isinstance(s_.value, ast.Yield)
+        body = list(f.node.body)
+        pre, post, yielded = [], [], None
+        for i_, s_ in enumerate(body):
+            if is_yield(s_):
+                pre, post, yielded = body[:i_], body[i_ + 1:], s_.value.value
+                break
+            if isinstance(s_, ast.Try) and any(is_yield(x_) for x_ in s_.body):
+                j_ = next(k_ for k_, x_ in enumerate(s_.body) if is_yield(x_))
+                pre = body[:i_] + s_.body[:j_]
+                post = s_.body[j_ + 1:] + s_.finalbody + body[i_ + 1:]
+                yielded = s_.body[j_].value.value
+                break
+        else:
+            raise Unsupported(f"@contextmanager {f.node.name} has no top-level yield ({env.mod.site(st)})")
+        self.exec_block(pre, fenv)
+        if item.optional_vars is not None:
+            self.assign(item.optional_vars, self.eval(yielded, fenv) if yielded is not None else None, env)
+        self.exec_block(st.body, env)
+        self.exec_block(post, fenv)
+
     def st_Global(self, st, env):
         raise Unsupported(f"global statement at {env.mod.site(st)}")
 
@@ -814,7 +873,7 @@ class Interp:
                         return FuncVal(c.mod, st, None, c)
                     if "classmethod" in decos:
                         return FuncVal(c.mod, st, cv, c)
-                    if decos and any(d for d in decos):
+                    if decos and any(d for d in decos) and not all(d in ("contextmanager", "contextlib.contextmanager") for d in decos):
                         raise Unsupported(f"decorated method {c.name}.{attr} ({decos}) ({site})")
                     return FuncVal(c.mod, st, inst, c)
                 if (isinstance(st, ast.Assign) and any(isinstance(t, ast.Name) and t.id == attr for t in st.targets)) or (
@@ -838,9 +897,14 @@ class Interp:
         raise Unsupported(f"attribute {attr} not found on {cv.name} ({site})")
 
     def p_attr(self, p: PVal, attr, site):
+        if attr == "_slice":
+            return AList([TokenVal({"type": Tmpl.lit(s_), "value": v_}) for s_, v_ in zip(p.syms, p.values)], "list")
+        # mirrors sly/yacc.py:Production.__init__ (namemap with duplicate counting and EBNF aliases)
         count = {}
         for s in p.syms:
             count[s] = count.get(s, 0) + 1
+            for a_ in p.aliases.get(s, []):
+                count[a_] = count.get(a_, 0) + 1
         use = {}
         for i, s in enumerate(p.syms):
             if count[s] > 1:
@@ -850,6 +914,19 @@ class Interp:
                 k = s
             if k == attr:
                 return p.values[i]
+            for n_, a_ in enumerate(p.aliases.get(s, [])):
+                if count[a_] > 1:
+                    k = f"{a_}{use.get(a_, 0)}"
+                    use[a_] = use.get(a_, 0) + 1
+                else:
+                    k = a_
+                if k == attr:
+                    v = p.values[i]
+                    if isinstance(v, AList) and v.pytype == "list":
+                        return AList([x.items[n_] for x in v.items], "list")
+                    if isinstance(v, AList):
+                        return v.items[n_]
+                    raise Unsupported(f"EBNF alias {attr} on a value of type {type(v).__name__} ({site})")
         raise RaiseSig("AttributeError", site, f"No symbol {attr} in production slice {p.syms}")
 
     def ev_Subscript(self, n, env):
@@ -1173,6 +1250,8 @@ class Interp:
             needle = x.name if isinstance(x, Sym) and x.kind == "ident" else (x.text() if isinstance(x, Tmpl) and x.is_literal() else None)
             if needle is not None:
                 return needle in text
+        if isinstance(container, Sym) and container.kind in ("rawtoken", "str"):
+            return self.choose(f"{_describe(x)} in {container.src} at {site}")
         raise Unsupported(f"membership in {type(container).__name__} at {site}")
 
     def truthy(self, v, what=""):
@@ -1198,6 +1277,8 @@ class Interp:
             if v.kind == "ident":
                 return True
             return self.choose(f"truthy({v.src}) at {what}")
+        if isinstance(v, ExtVal):
+            return True
         if isinstance(v, MinLen):
             if v.n > 0:
                 return True
@@ -1260,6 +1341,19 @@ class Interp:
                     rec(gi + 1, e2)
         rec(0, env)
         return out, tuple(nd)
+
+    def ev_DictComp(self, n, env):
+        d = ADict({})
+        if len(n.generators) != 1:
+            raise Unsupported("nested dict comprehension")
+        g = n.generators[0]
+        for x in self.iterate(self.eval(g.iter, env), env.mod.site(g.iter)):
+            x = x.value if isinstance(x, _Tagged) else x
+            e2 = Env(env.mod, {}, outer=env)
+            self.assign(g.target, x, e2)
+            if all(self.truthy(self.eval(c_, e2), env.mod.site(c_)) for c_ in g.ifs):
+                d.items[self.dict_key(d, self.eval(n.key, e2), env.mod.site(n))] = self.eval(n.value, e2)
+        return d
 
     def ev_Lambda(self, n, env):
         fn = ast.FunctionDef(name="<lambda>", args=n.args, body=[ast.Return(value=n.body)],
@@ -1348,6 +1442,23 @@ class Interp:
                     elif dn in ("root_validator", "model_validator"):
                         kw = {k.arg: getattr(k.value, "value", None) for k in d.keywords} if isinstance(d, ast.Call) else {}
                         root_validators.append((st, kw))
+        # Config given as class keywords (class M(BaseModel, smart_union=True)) and inherited from base models
+        for k_ in cv.node.keywords:
+            if k_.arg and isinstance(k_.value, ast.Constant):
+                cfg.setdefault(k_.arg, k_.value.value)
+        for b_ in cv.node.bases:
+            bn = (dotted(b_) or "").split(".")[-1]
+            mm_, node_ = self.src.resolve_name(cv.mod, bn)
+            if isinstance(node_, ast.ClassDef) and bn != cv.name:
+                bcv = self.class_val(mm_, node_)
+                if bcv.kind == "model":
+                    bfields, _ = self.model_fields(bcv)
+                    bcfg, bval, brval = self._model_extra[bcv.name]
+                    for k2, v2 in bcfg.items():
+                        cfg.setdefault(k2, v2)
+                    fields = [f_ for f_ in bfields if f_[0] not in {x_[0] for x_ in fields}] + fields
+                    validators = bval + validators
+                    root_validators = brval + root_validators
         self._model_extra[cv.name] = (cfg, validators, root_validators)
         return fields, cfg.get("smart_union") is True
 
@@ -1898,6 +2009,12 @@ class Interp:
                 return Tmpl.lit(getattr(recv.name, name)())
             if recv.kind == "rawtoken" and name == "count":
                 return Sym("int", recv.src + ".count")
+            if recv.kind == "rawtoken" and name in ("partition", "rpartition"):
+                return AList([Sym("rawtoken", recv.src), Sym("rawtoken", recv.src + ".sep"), Sym("rawtoken", recv.src)], "tuple")
+            if recv.kind == "rawtoken" and name in ("isdigit", "isdecimal", "isnumeric", "isalpha", "isidentifier", "startswith", "endswith", "isascii"):
+                return self.choose(f"{recv.src}.{name}() at {site}")
+            if recv.kind == "rawtoken" and name in ("find", "index"):
+                return Sym("int", recv.src + "." + name)
             raise Unsupported(
                 f"method .{name}() on an opaque {recv.kind} value ({recv.src}) at {site}: "
                 "the generated text would depend on the literal's content")
@@ -1922,6 +2039,9 @@ class Interp:
             return StrBuf([args[0]] if args and isinstance(args[0], Tmpl) else [])
         if q in ("operator.itemgetter", "operator.attrgetter"):
             raise Unsupported(f"{q} at {site}")
+        if q == "re.escape" and args and isinstance(args[0], Tmpl) and args[0].is_literal():
+            import re as _re
+            return Tmpl.lit(_re.escape(args[0].text()))
         if q == "re.compile":
             return ExtVal("re", "Pattern()")
         if q in ("re.Pattern().match", "re.Pattern().fullmatch", "re.Pattern().search", "re.match", "re.fullmatch", "re.search"):
